@@ -42,7 +42,7 @@ func TestMain(m *testing.M) {
 func gen(rt *rapid.T) any {
 	r := &Record{}
 	r.Prog = gencommon.Program(rt, gencommon.ProgramSpec{CorpusShare: 3, Lib: 3, MaxXGo: 2, Budget: 120, MaxDepth: 8, MaxDecls: 6}, env.Paths)
-	r.Front = gencommon.Front(rt, gencommon.FrontSpec{Faults: []string{"discard_ref", "abort_stmt", "abort_init", "abort_endinit", "abort_return", "callex_err", "abort_header", "discard_reset"}, MaxFaults: 4, Constructs: []string{"vblock", "inline_closure", "bigint_op", "unit_lit", "unsafe_ref"}, FileAssign: true, HandlerFlip: true})
+	r.Front = gencommon.Front(rt, gencommon.FrontSpec{Faults: []string{"discard_ref", "abort_stmt", "abort_init", "abort_endinit", "abort_return", "callex_err", "abort_header", "discard_reset"}, MaxFaults: 4, Constructs: []string{"vblock", "inline_closure", "bigint_op", "unit_lit", "unsafe_ref", "bti_call"}, FileAssign: true, HandlerFlip: true})
 	return r
 }
 
